@@ -78,3 +78,208 @@ Proof.
   - unfold delete_visible. destruct (get k b), (get k l), (get k r); try exact I;
       intros c v Hm Hc; apply col_some_mem in Hc; congruence.
 Qed.
+
+(* ---------- resolve_preserves_mirror ---------- *)
+(* the index mirrors the table: (v,k) is an entry exactly when the row at key k has v in the indexed column *)
+Definition mirror (ci : nat) (idx : list ientry) (t : table) : Prop :=
+  forall v k, imem v k idx = match get k t with Some r => cell_eqb (ival ci r) v | None => false end.
+
+Lemma ientry_eqb_spec a b : ientry_eqb a b = true <-> a = b.
+Proof.
+  destruct a as [v k], b as [v' k']. unfold ientry_eqb. cbn [fst snd]. rewrite andb_true_iff, N.eqb_eq.
+  destruct (cell_eqb_spec v v') as [E|NE]; split; intro H.
+  - destruct H. congruence.
+  - split; [reflexivity|congruence].
+  - destruct H. discriminate.
+  - inversion H. contradiction.
+Qed.
+
+Lemma imem_iins v k e idx : imem v k (iins e idx) = ientry_eqb (v, k) e || imem v k idx.
+Proof. reflexivity. Qed.
+
+Lemma imem_idel v k e idx : imem v k (idel e idx) = imem v k idx && negb (ientry_eqb e (v, k)).
+Proof.
+  unfold imem, idel. induction idx as [|x idx IH]; cbn [filter existsb]; [reflexivity|].
+  destruct (ientry_eqb e x) eqn:E; cbn [negb].
+  - rewrite IH. apply ientry_eqb_spec in E. subst x.
+    destruct (ientry_eqb (v, k) e) eqn:E2; cbn [orb].
+    + apply ientry_eqb_spec in E2. subst e. assert (H : ientry_eqb (v, k) (v, k) = true) by (apply ientry_eqb_spec; reflexivity).
+      rewrite H. cbn [negb]. rewrite !andb_false_r. reflexivity.
+    + reflexivity.
+  - cbn [existsb]. rewrite IH. destruct (ientry_eqb (v, k) x) eqn:E2; cbn [orb]; [|reflexivity].
+    apply ientry_eqb_spec in E2. subst x. rewrite E. reflexivity.
+Qed.
+
+Lemma ientry_key_ne v k v' k' : k' <> k -> ientry_eqb (v, k) (v', k') = false /\ ientry_eqb (v', k') (v, k) = false.
+Proof.
+  intro H. unfold ientry_eqb. cbn [fst snd]. split; apply andb_false_iff; right; apply N.eqb_neq; congruence.
+Qed.
+
+Lemma ientry_same_key v k v' : ientry_eqb (v, k) (v', k) = cell_eqb v v'.
+Proof. unfold ientry_eqb. cbn [fst snd]. rewrite N.eqb_refl. apply andb_true_r. Qed.
+
+Lemma cell_eqb_sym a b : cell_eqb a b = cell_eqb b a.
+Proof. destruct (cell_eqb_spec a b), (cell_eqb_spec b a); congruence. Qed.
+
+(* one artifact: the table step (apply_theirs) and the index step (apply_idx) keep the mirror,
+   provided the row the index step reads (from the pre-resolve table t0) is the current row *)
+Lemma mirror_step ci t0 t idx e :
+  mirror ci idx t -> get (fst e) t0 = get (fst e) t ->
+  mirror ci (apply_idx ci t0 e idx) (apply_theirs e t).
+Proof.
+  intros M G. destruct e as [k [[b0 o0] th]]. cbn [fst] in G. intros v k'.
+  rewrite get_apply_theirs. cbn [fst snd apply_idx]. rewrite G.
+  destruct (N.eqb_spec k k') as [E|NE].
+  - subst k'. pose proof (M v k) as Mk.
+    destruct (get k t) as [o|] eqn:Go, th as [r|].
+    + rewrite imem_iins, imem_idel, Mk, !ientry_same_key.
+      rewrite (cell_eqb_sym v (ival ci r)). destruct (cell_eqb (ival ci r) v); [reflexivity|]. cbn [orb].
+      destruct (cell_eqb (ival ci o) v); reflexivity.
+    + rewrite imem_idel, Mk, ientry_same_key. destruct (cell_eqb (ival ci o) v); reflexivity.
+    + rewrite imem_iins, Mk, ientry_same_key, orb_false_r. apply cell_eqb_sym.
+    + exact Mk.
+  - pose proof (M v k') as Mk.
+    destruct (get k t) as [o|], th as [r|];
+      rewrite ?imem_iins, ?imem_idel;
+      repeat match goal with |- context [ientry_eqb (?a, k') (?c, k)] => rewrite (proj1 (ientry_key_ne a k' c k NE)) end;
+      repeat match goal with |- context [ientry_eqb (?c, k) (?a, k')] => rewrite (proj2 (ientry_key_ne a k' c k NE)) end;
+      cbn [orb negb]; rewrite ?andb_true_r; exact Mk.
+Qed.
+
+(* resolve_preserves_mirror: for every table, index and conflict list with distinct keys, resolving
+   with theirs leaves the secondary index mirroring the resolved table. *)
+Theorem resolve_preserves_mirror : forall ci t conf idx,
+  NoDup (map fst conf) -> mirror ci idx t ->
+  mirror ci (resolve_idx ci t conf idx) (resolve false t conf).
+Proof.
+  intros ci t conf idx ND M. unfold resolve_idx, resolve.
+  induction conf as [|e conf IH]; cbn [fold_right]; [exact M|].
+  inversion ND as [|x xs Hnot ND']; subst.
+  apply mirror_step; [apply IH; exact ND'|].
+  fold (resolve false t conf). rewrite resolve_theirs_spec.
+  assert (G : getc (fst e) conf = None).
+  { clear - Hnot. induction conf as [|[k' e'] conf IH]; [reflexivity|]. cbn [getc map fst] in *.
+    destruct (N.eqb_spec k' (fst e)) as [E|NE]; [exfalso; apply Hnot; left; exact E|].
+    apply IH. intro H. apply Hnot. right. exact H. }
+  rewrite G. reflexivity.
+Qed.
+
+(* resolving with ours does not touch rows or index *)
+Theorem resolve_ours_preserves_mirror : forall ci t conf idx,
+  mirror ci idx t -> mirror ci idx (resolve true t conf).
+Proof. intros. exact H. Qed.
+
+(* the conflict list of a merge has distinct keys *)
+Lemma NoDup_flat_map_keys {A} (f : N -> list (N * A)) ks :
+  NoDup ks -> (forall k x, In x (f k) -> fst x = k) -> (forall k, length (f k) <= 1)%nat ->
+  NoDup (map fst (flat_map f ks)).
+Proof.
+  intros ND Hk Hl. induction ks as [|k ks IH]; cbn [flat_map map]; [constructor|].
+  inversion ND as [|y ys Hnot ND']; subst. rewrite map_app.
+  specialize (IH ND').
+  pose proof (Hl k) as L. pose proof (Hk k) as K.
+  destruct (f k) as [|x [|x' rest]]; cbn [map app length] in *; [exact IH| |exfalso; inversion L as [|? L']; inversion L'].
+  constructor; [|exact IH]. rewrite (K x (or_introl eq_refl)).
+  intro H. apply in_map_iff in H as [[k' a] [E Hin]]. cbn [fst] in E. subst k'.
+  apply in_flat_map in Hin as [k0 [Hk0 Hin]]. apply Hk in Hin. cbn [fst] in Hin. subst k0. contradiction.
+Qed.
+
+Theorem conflict_keys_distinct : forall fixed sb sl sr b l r,
+  NoDup (map fst (m_conf (table_merge fixed sb sl sr b l r))).
+Proof.
+  intros. unfold table_merge. cbn [m_conf]. apply NoDup_flat_map_keys.
+  - apply NoDup_nodup.
+  - intros k x Hin. destruct (merge_key fixed sb sl sr b l r k) as [|v [|]]; cbn [In] in Hin; try contradiction.
+    destruct Hin as [E|[]]. subst x. reflexivity.
+  - intro k. destruct (merge_key fixed sb sl sr b l r k) as [|v [|]]; cbn [length]; auto.
+Qed.
+
+(* ---------- oracle_on_model ---------- *)
+From Dolt Require Import C43.Corr.
+
+Lemma same_schema_scope s ob ol or :
+  schemas_ok s s s /\ conv_ok s s ol or /\ delete_visible s s s ob ol or.
+Proof.
+  split; [split; intros _; reflexivity|]. split; [intros x _ _; reflexivity|].
+  unfold delete_visible. destruct ob, ol, or; try exact I;
+    intros c v Hm Hc; apply col_some_mem in Hc; congruence.
+Qed.
+
+Lemma remap_self_agree s o : orow_agree s o s (option_map (remap s s) o) = true.
+Proof.
+  destruct o as [x|]; cbn [option_map orow_agree]; [|reflexivity].
+  apply forallb_forall. intros c Hc. unfold remap. rewrite col_map.
+  assert (M : mem c s = true). { apply mem_In. apply in_app_or in Hc. tauto. }
+  rewrite M. destruct (col_some_ex s x c M) as [v Hv]. rewrite Hv. cbn [nullify ocell_eqb]. apply cell_eqb_refl.
+Qed.
+
+Lemma imem_app v k a b : imem v k (a ++ b) = imem v k a || imem v k b.
+Proof. unfold imem. apply existsb_app. Qed.
+
+Lemma imem_build ci (g : N -> option row) ks v k :
+  imem v k (flat_map (fun k' => match g k' with Some r => [(ival ci r, k')] | None => [] end) ks)
+  = if existsb (N.eqb k) ks then match g k with Some r => cell_eqb (ival ci r) v | None => false end else false.
+Proof.
+  induction ks as [|k' ks IH]; cbn [flat_map existsb]; [reflexivity|].
+  rewrite imem_app, IH. rewrite (N.eqb_sym k k').
+  destruct (N.eqb_spec k' k) as [E|NE]; cbn [orb].
+  - subst k'. destruct (g k) as [r|]; cbn [imem existsb].
+    + unfold imem. cbn [existsb]. rewrite ientry_same_key, orb_false_r, (cell_eqb_sym v).
+      destruct (cell_eqb (ival ci r) v); cbn [orb]; [reflexivity|]. destruct (existsb (N.eqb k) ks); reflexivity.
+    + unfold imem. cbn [existsb orb]. destruct (existsb (N.eqb k) ks); reflexivity.
+  - destruct (g k') as [r|]; unfold imem at 1; cbn [existsb orb]; [|reflexivity].
+    rewrite (proj1 (ientry_key_ne v k (ival ci r) k' NE)). reflexivity.
+Qed.
+
+Lemma mirror_build ci t : mirror ci (build_idx ci t) t.
+Proof.
+  intros v k. unfold build_idx. rewrite (imem_build ci (fun k' => get k' t)).
+  destruct (existsb (N.eqb k) (nodup N.eq_dec (keys t))) eqn:E; [reflexivity|].
+  assert (G : get k t = None).
+  { apply get_none_keys. intro H. apply (nodup_In N.eq_dec) in H. apply (proj2 (existsb_eqb_In k _)) in H. congruence. }
+  rewrite G. reflexivity.
+Qed.
+
+Lemma lookup_ok_mirror idx t v : mirror 0 idx t -> lookup_ok t (v, lookup_idx v idx) = true.
+Proof.
+  intro M. unfold lookup_ok, lookup_idx. cbn [fst snd]. apply andb_true_iff. split; apply forallb_forall.
+  - intros k Hk. apply in_map_iff in Hk as [[v' k'] [E Hin]]. cbn [snd] in E. subst k'.
+    apply filter_In in Hin as [Hin Hv]. cbn [fst] in Hv. destruct (cell_eqb_spec v' v); [subst v'|discriminate].
+    rewrite <- (M v k). unfold imem. apply existsb_exists. exists (v, k). split; [exact Hin|apply ientry_eqb_spec; reflexivity].
+  - intros k _. rewrite <- (M v k). destruct (imem v k idx) eqn:I; [|reflexivity]. cbn [implb].
+    unfold imem in I. apply existsb_exists in I as [x [Hin Hx]]. apply ientry_eqb_spec in Hx. subst x.
+    unfold memN. apply existsb_exists. exists k. split; [|apply N.eqb_refl].
+    apply in_map_iff. exists (v, k). split; [reflexivity|]. apply filter_In. split; [exact Hin|apply cell_eqb_refl].
+Qed.
+
+(* oracle_on_model: the executable statement of the property accepts the model's observation for
+   every input (conflict table, both resolutions, index lookups) — no hypotheses. *)
+Theorem oracle_on_model : forall i, oracle i (model_obs i) = true.
+Proof.
+  intro i. unfold oracle, model_obs.
+  cbn [o_err o_rows o_conf o_ours o_theirs o_ours_left o_theirs_left o_ours_ix o_theirs_ix].
+  set (s := i_s i). set (M := table_merge true s s s (i_b i) (i_l i) (i_r i)).
+  assert (EM : m_err M = false) by apply merge_total.
+  rewrite EM. cbn [negb andb resolve_state fst snd length N.of_nat N.eqb].
+  rewrite !andb_true_iff. split; [split; [split; [split|]|]|]; try reflexivity.
+  - apply forallb_forall. intros k _.
+    destruct (resolve_spec s s s (i_b i) (i_l i) (i_r i) true k) as [Ro _].
+    destruct (resolve_spec s s s (i_b i) (i_l i) (i_r i) false k) as [Rt _].
+    cbn [resolve_state fst] in Ro, Rt. fold M in Ro, Rt.
+    rewrite <- (conflicts_exact_same_schema s (i_b i) (i_l i) (i_r i) k). fold M.
+    rewrite Ro, Rt, !orow_agree_refl.
+    destruct (getc k (m_conf M)) as [[[b1 o1] t1]|] eqn:G; [|reflexivity].
+    rewrite !orow_eqb_refl, orow_agree_refl. cbn [andb].
+    unfold spec_resolved. rewrite G.
+    subst M. rewrite conflicts_exact in G. unfold merge_key in G.
+    destruct (same_schema_scope s (get k (i_b i)) (get k (i_l i)) (get k (i_r i))) as [Hs [Cv Dv]].
+    rewrite (row_merge_refines_spec _ _ _ _ _ _ Hs Cv Dv) in G.
+    pose proof (spec_conflict_ours s s s (get k (i_b i)) (get k (i_l i)) (get k (i_r i))) as O.
+    destruct (snd (spec_row s s s (get k (i_b i)) (get k (i_l i)) (get k (i_r i)))); [|discriminate].
+    rewrite (O eq_refl), merged_schema_same in G. inversion G; subst.
+    rewrite remap_self_agree, orow_agree_refl. reflexivity.
+  - apply forallb_forall. intros e He. apply in_map_iff in He as [v [E _]]. subst e.
+    apply lookup_ok_mirror. apply mirror_build.
+  - apply forallb_forall. intros e He. apply in_map_iff in He as [v [E _]]. subst e.
+    apply lookup_ok_mirror. apply resolve_preserves_mirror; [apply conflict_keys_distinct|apply mirror_build].
+Qed.
